@@ -150,6 +150,19 @@ Json EngineGen::generate(uint64_t seed, const runner::GenOptions& opt, const Eng
     }
     prog.rules[r.id] = r;
   }
+  if (useCycles && useDisc && computed.size() >= 2 && rng.chance(500)) {
+    // a loop that only ever exists in recorded dependency lists: X reports Y as discovered, Y requests X
+    int x = computed[rng.below(computed.size())];
+    int y = computed[rng.below(computed.size())];
+    if (x != y) {
+      if (x > y) std::swap(x, y);
+      prog.rules[x].disc.push_back({y, -1, 1, 0});
+      bool has = false;
+      for (auto& q : prog.rules[y].reqs)
+        if (q.k == x) has = true;
+      if (!has) prog.rules[y].reqs.push_back({x, REQ});
+    }
+  }
   if (useCycles && !computed.empty()) {
     // add 1-2 back edges (static, dynamic or order-only)
     int nb = (int)rng.range(1, 2);
@@ -838,7 +851,9 @@ void Run::determinedRuleNeedsToRun(Rule* rule, Rule::RunReason reason, Rule* inp
           if (d.key == in) orderOnly = true;
         why = std::string("reported input-rebuilt for ") + util::printable(in) +
               (orderOnly ? ", which is only an order-only/single-use dependency" : ", which is not a recorded dependency");
-      } else if (it == mem.end() || (!(it->second.changedIn > m.validatedIn) && !(it->second.interruptedIn > m.validatedIn))) {
+      } else if (it == mem.end() || !(it->second.changedIn > m.validatedIn)) {
+        // (an input whose execution was interrupted keeps its old value in the engine, and completions that a
+        // cancelled build discarded are tracked by the shadow's value too: no exemption is needed here)
         why = "reported input-rebuilt for " + util::printable(in) + ", whose value last changed in build " +
               std::to_string(it == mem.end() ? 0 : it->second.changedIn) + ", not after this rule was brought up to date in build " +
               std::to_string(m.validatedIn);
@@ -866,8 +881,17 @@ void Run::cycleDetected(const std::vector<Rule*>& items) {
   ctr()["cycle_reports"]++;
   // C07.1 well-formedness
   std::string why;
-  if (items.empty()) why = "empty cycle list";
-  else if (cycleKeys[0] != targetKey) why = "list does not start at the requested key";
+  if (items.empty()) {
+    auto tm = mem.find(targetKey);
+    if (tm != mem.end() && tm->second.validatedIn == buildNo) {
+      // KNOWN FINDING C07.K1 (known_findings.json): the requested key itself is already complete and the cycle is only
+      // reachable through a dependency that a completed task reported as discovered; the engine searches for the
+      // cycle from the requested key, finds nothing and reports an empty list.
+      ctr()["known:C07.K1"]++;
+    } else {
+      why = "empty cycle list";
+    }
+  } else if (cycleKeys[0] != targetKey) why = "list does not start at the requested key";
   else {
     bool repeats = false;
     for (size_t i = 0; i + 1 < cycleKeys.size(); i++)
@@ -1039,10 +1063,12 @@ void SimTask::inputsAvailable(TaskInterface ti) {
       }
       if (!on) continue;
       const RuleSpec* t = r->prog.get(d.k);
-      if (!t || !t->leaf) continue;
+      if (!t) continue;
+      discKeys.push_back(t->key);
+      // a discovered dependency on a computed key is only reported ("re-run me when it changes"), never read
+      if (!t->leaf) continue;
       auto it = r->ext.find(d.k);
       reads[d.k] = it == r->ext.end() ? std::string("-") : it->second;
-      discKeys.push_back(t->key);
     }
     value = computeValue(*spec, st->delivered, reads);
     force = spec->force;
